@@ -18,7 +18,7 @@ PROPERTY = "C13"
 LEVEL = "model_checking"
 ASSUMPTIONS = ["DC4: relative order of enum-value and enum-type hooks is free", "DC13: relative order of abstract-type and object-type output hooks is free",
                "one argument per request (sibling arguments are coerced concurrently)"]
-BUDGET_S = {"quick": 120, "thorough": 1800}
+BUDGET_S = {"quick": 600, "thorough": 1800}
 MAXDIR = {"quick": 4, "thorough": 5}
 
 LOCS = ["SCHEMA", "SCALAR", "OBJECT", "FIELD_DEFINITION", "ARGUMENT_DEFINITION", "INTERFACE", "UNION", "ENUM", "ENUM_VALUE",
